@@ -97,3 +97,29 @@ PROPS["C19"] = dict(
     assumptions=["np.linspace(-h, h, 2h+1)[i] == -h + i", "trigonometric identities used as axioms: sin^2+cos^2=1, cos(u)cos(v) = (cos(u-v)+cos(u+v))/2, cos t = 1 - 2 sin^2(t/2), sin odd, cos even, asin range"],
     trusted_base=[],
 )
+
+PROPS["C02"] = dict(
+    level="proof",
+    technique="contract-based: loop invariants on the real _strides and _calc_stats (pyvc VCs -> z3; reducers and NumPy mask-filter uninterpreted under assumed contracts); table-level statement bounded against a per-zone reference",
+    not_decided=["np.argsort/np.unique/boolean-mask semantics (assumed NumPy contracts)", "assembly of the pandas/xarray result in _stats_numpy (bounded)"],
+    assumptions=["np.unique(a) = strictly ascending distinct elements of a; np.argsort(a) is a permutation sorting a with -inf first and +inf, NaN last",
+                 "a[mask] keeps exactly the elements where mask is true, in order (function of mask and a)"],
+    trusted_base=[],
+    bounded=[("c02_zonal_stats", {"quick": 30, "thorough": 300})],
+)
+PROPS["C04"] = dict(
+    level="proof",
+    technique="contract-based: _strides post-condition (run ends of sorted categories) + running-offset invariant of _single_zone_crosstab_2d; table-level statement bounded against a direct contingency count",
+    not_decided=["3-D aggregates of an empty cell set (max/min/mean of nothing) are degenerate and not claimed"],
+    assumptions=["np.sort / np.unique assumed contracts"],
+    trusted_base=[],
+    bounded=[("c04_crosstab", {"quick": 30, "thorough": 300})],
+)
+PROPS["C03"] = dict(
+    level="proof",
+    technique="contract-based: block-level contracts (_strides, _calc_stats with the global unique_zones) and combiner lemmas (sum/count/sum-of-squares -> mean/var/std; max/min) relative to the assumed Dask contracts; table equality bounded over independent chunkings",
+    not_decided=["Dask delayed/from_delayed/to_delayed semantics (assumed)", "float rounding of sum/mean/std/var across blocks"],
+    assumptions=["to_delayed().ravel() enumerates blocks in row-major block order; zip pairs blocks covering the same cells once chunks are equal (validate_arrays)"],
+    trusted_base=[],
+    bounded=[("c03_zonal_stats_dask", {"quick": 45, "thorough": 400}), ("c03_crosstab_dask", {"quick": 45, "thorough": 400})],
+)
